@@ -224,3 +224,35 @@ Theorem C07_only_a_fifo_at_the_destination_can_make_it_wait : forall s d o,
   dest_outcome s d o = Blocks -> s = SFile /\ d = DSpecial /\ o = ONone.
 Proof. exact blocks_only_file_onto_fifo. Qed.
 Print Assumptions C07_only_a_fifo_at_the_destination_can_make_it_wait.
+
+(* ---- every function on the path of a copy that contains a LOOP or a retry, or decides whether one is entered (the per-file
+   constructors, the block queueing, the backup-name search over a directory), pinned token for token as validated: a new
+   loop, retry or probe in any of them re-opens this obligation, and the run then looks for an input on which it does not end ---- *)
+From XcpPins Require Import Pin_parblock_queue_file_blocks Pin_backup_get_backup_path Pin_backup_next_backup_num Pin_backup_ls_file_dir Pin_backup_has_backup Pin_backup_needs_backup Pin_operations_new Pin_operations_copy_file Pin_operations_tree_walker.
+Theorem C07_src_pin_parblock_queue_file_blocks : pin_unchanged name_parblock_queue_file_blocks.
+Proof. exact pin_parblock_queue_file_blocks. Qed.
+Theorem C07_src_pin_backup_get_backup_path : pin_unchanged name_backup_get_backup_path.
+Proof. exact pin_backup_get_backup_path. Qed.
+Theorem C07_src_pin_backup_next_backup_num : pin_unchanged name_backup_next_backup_num.
+Proof. exact pin_backup_next_backup_num. Qed.
+Theorem C07_src_pin_backup_ls_file_dir : pin_unchanged name_backup_ls_file_dir.
+Proof. exact pin_backup_ls_file_dir. Qed.
+Theorem C07_src_pin_backup_has_backup : pin_unchanged name_backup_has_backup.
+Proof. exact pin_backup_has_backup. Qed.
+Theorem C07_src_pin_backup_needs_backup : pin_unchanged name_backup_needs_backup.
+Proof. exact pin_backup_needs_backup. Qed.
+Theorem C07_src_pin_operations_new : pin_unchanged name_operations_new.
+Proof. exact pin_operations_new. Qed.
+Theorem C07_src_pin_operations_copy_file : pin_unchanged name_operations_copy_file.
+Proof. exact pin_operations_copy_file. Qed.
+Theorem C07_src_pin_operations_tree_walker : pin_unchanged name_operations_tree_walker.
+Proof. exact pin_operations_tree_walker. Qed.
+Print Assumptions C07_src_pin_parblock_queue_file_blocks.
+Print Assumptions C07_src_pin_backup_get_backup_path.
+Print Assumptions C07_src_pin_backup_next_backup_num.
+Print Assumptions C07_src_pin_backup_ls_file_dir.
+Print Assumptions C07_src_pin_backup_has_backup.
+Print Assumptions C07_src_pin_backup_needs_backup.
+Print Assumptions C07_src_pin_operations_new.
+Print Assumptions C07_src_pin_operations_copy_file.
+Print Assumptions C07_src_pin_operations_tree_walker.
